@@ -139,6 +139,19 @@ def run(report, p):
             after = f.node.body[f.node.body.index(loops[0]) + 1:]
             tail_ok = len(after) == 1 and isinstance(after[0], ast.Return) and (after[0].value is None or (isinstance(after[0].value, ast.Constant) and after[0].value.value is None))
             r2.check(tail_ok, f, after[0] if after else f.node, "after the loop the lookup returns something other than None (last-match-wins pattern)", construct=f"{name}: fall-through")
+            # every entry of the record is looked at: inner loops run over the record's bare entry list
+            for il in [n for st in loops[0].body for n in ast.walk(st) if isinstance(n, ast.For)]:
+                r2.instance(f, il, f"{name}: for {norm(il.target)} in {norm(il.iter)[:40]}")
+                it_ = il.iter
+                # order-only wrappers do not matter here (a record holds at most one entry per format and one `original`)
+                while True:
+                    if isinstance(it_, ast.Call) and norm(it_.func) in ("reversed", "sorted", "list", "tuple", "iter") and it_.args:
+                        it_ = it_.args[0]
+                    elif isinstance(it_, ast.Subscript) and isinstance(it_.slice, ast.Slice) and it_.slice.lower is None and it_.slice.upper is None:
+                        it_ = it_.value
+                    else:
+                        break
+                r2.check(is_plain_iter(p, it_) and norm(it_).endswith(".hash_entries"), f, il.iter, f"the lookup does not look at every entry of the record (`{norm(il.iter)[:50]}`): an entry that is not in the visited part is never found, e.g. the `original` of a record whose first entry has another format", construct=f"{name}: entry loop iterable {norm(il.iter)[:40]}")
             # candidate-overwrite pattern inside the loop
             stores = [n for n in ast.walk(loops[0]) if isinstance(n, ast.Assign) and isinstance(n.value, ast.Name) and n.value.id in ("hash_entry",)]
             r2.check(not stores, f, stores[0] if stores else loops[0], "the lookup remembers a candidate and keeps scanning (a later generation can replace the first)", construct=f"{name}: candidate overwrite")
